@@ -52,8 +52,11 @@ def _draw_glyph(glyph, gspec):
         for x, y, t, s in contour:
             pen.addPoint((x, y), segmentType=t, smooth=bool(s))
         pen.endPath()
-    for base, tr in gspec.get("components", []):
-        pen.addComponent(base, tuple(tr))
+    for comp in gspec.get("components", []):
+        if len(comp) > 2 and comp[2]:
+            pen.addComponent(comp[0], tuple(comp[1]), identifier=comp[2])
+        else:
+            pen.addComponent(comp[0], tuple(comp[1]))
     for name, x, y in gspec.get("anchors", []):
         glyph.appendAnchor({"name": name, "x": x, "y": y})
     for k, v in gspec.get("lib", {}).items():
